@@ -29,7 +29,15 @@ TDICT = [O(0x2000, 0, True, True, "int", [1, 2, 3, 4]), O(0x2001, 0, True, False
          O(0x2030, 0, True, True, "app", [5, 6, 7, 8], [49, 0, 9, 6]),
          # objects far away in the index space (network variables A000h.., the last index): the dictionary spans more than 8000h
          O(0xA100, 0, True, True, "int", [1, 1, 1, 1]), O(0xA100, 1, True, False, "int", [2, 2]), O(0xA580, 1, True, True, "dom", dom(20)),
-         O(0xFFFE, 254, True, True, "int", [7])]
+         O(0xFFFE, 254, True, True, "int", [7]),
+         # constants and node-id relative entries of every width (read-only: the reference holds what a client reads = stored + node id)
+         dict(O(0x2040, 1, True, False, "int", [0x40 + NODE]), hflags=0xC0, stored=[0x40]),
+         dict(O(0x2040, 2, True, False, "int", [0x34 + NODE, 0x12]), hflags=0xC0, stored=[0x34, 0x12]),
+         dict(O(0x2040, 3, True, False, "int", [0x78 + NODE, 0x56, 0x34, 0x12]), hflags=0xC0, stored=[0x78, 0x56, 0x34, 0x12]),
+         dict(O(0x2040, 4, True, False, "int", [0xF0 + NODE]), hflags=0x40, stored=[0xF0]),
+         dict(O(0x2040, 5, True, False, "int", [0x10 + NODE, 0x20]), hflags=0x40, stored=[0x10, 0x20]),
+         dict(O(0x2040, 6, True, False, "int", [9]), hflags=0x80, stored=[9])]
+TDICT.sort(key=lambda o: (o["idx"], o["sub"]))          # the dictionary must be sorted
 MISSING = [(0x2000, 1), (0x3000, 0), (0x0FFF, 0), (0x2010, 9), (0x2010, 0), (0x2021, 0), (0xFFFF, 255), (0xA100, 2), (0xA101, 0), (0x9FFF, 0), (0xFFFE, 255)]
 
 
@@ -55,7 +63,8 @@ class Client:
         self.ev.append(["rx", RX, 8] + f)
 
     def dump(self, o):
-        self.ev.append(["dump", o["idx"], o["sub"]])
+        if "stored" not in o:          # (a dump shows the raw storage)
+            self.ev.append(["dump", o["idx"], o["sub"]])
 
     def target(self, pred=None):
         r = self.r
